@@ -83,9 +83,19 @@ func init() {
 			}
 			var out []Op
 			h := 100
+			openStreams := 0
 			for _, o := range ro {
 				out = append(out, o)
-				if r.Float64() < 0.4 {
+				switch o.K {
+				case "open":
+					openStreams++
+				case "h.close":
+					if openStreams > 0 {
+						openStreams--
+					}
+				}
+				// (KF6: no second read while a read stream of the history is open)
+				if openStreams == 0 && r.Float64() < 0.4 {
 					p := paths[r.IntN(len(paths))]
 					h++
 					switch r.IntN(7) {
